@@ -4,27 +4,27 @@ From MSP Require Import Base.Src Proofs.Sim Proofs.DecBuf Model.Mszip Model.Lzx 
 Import ListNotations. Local Open Scope N_scope.
 
 (* "The result is the same for every legal setting of the input buffer size": for each of the three ported CAB decoders
-   (MSZIP/inflate, LZX incl. multi-call sequences, Quantum), on every input byte string whatsoever, the buffered run with any
+   (MSZIP/inflate, LZX incl. multi-call sequences, Quantum), on every input byte string and every value of the output-length hint (lzx->length: outlen for LZX), the buffered run with any
    buffer size > 0 on an honest host returns the same status and writes the same bytes as the run on the ideal byte source. *)
-Theorem C01_mszip_bufsize_independent : forall bufsize out_bytes inp, 0 < bufsize ->
-  let '(r1, i') := ideal EofPad2 (mszip_run out_bytes) (fresh_ideal inp) in
-  let '((r2, _), h') := exec (fresh_host inp) (buffered bufsize EofPad2 (mszip_run out_bytes) fresh_buf) in
+Theorem C01_mszip_bufsize_independent : forall bufsize out_bytes hint inp, 0 < bufsize ->
+  let '(r1, i') := ideal EofPad2 hint (mszip_run out_bytes) (fresh_ideal inp) in
+  let '((r2, _), h') := exec hint (fresh_host inp) (buffered bufsize EofPad2 (mszip_run out_bytes) fresh_buf) in
   r1 = r2 /\ iout i' = out h'.
 Proof. intros. apply decoder_bufsize_independent. assumption. Qed.
 Print Assumptions C01_mszip_bufsize_independent.
 
 Theorem C01_lzx_bufsize_independent : forall bufsize wbits reset outlen delta refdata reqs inp, 0 < bufsize ->
-  let p := Lzx.calls reqs (lzx_init wbits reset outlen delta refdata) [] in
-  let '(r1, i') := ideal EofPad2 p (fresh_ideal inp) in
-  let '((r2, _), h') := exec (fresh_host inp) (buffered bufsize EofPad2 p fresh_buf) in
+  let p := Lzx.calls reqs (lzx_init wbits reset delta refdata) [] in
+  let '(r1, i') := ideal EofPad2 outlen p (fresh_ideal inp) in
+  let '((r2, _), h') := exec outlen (fresh_host inp) (buffered bufsize EofPad2 p fresh_buf) in
   r1 = r2 /\ iout i' = out h'.
 Proof. intros. apply decoder_bufsize_independent. assumption. Qed.
 Print Assumptions C01_lzx_bufsize_independent.
 
-Theorem C01_qtm_bufsize_independent : forall bufsize wbits n inp, 0 < bufsize ->
+Theorem C01_qtm_bufsize_independent : forall bufsize wbits n hint inp, 0 < bufsize ->
   let p := Qtm.decompress n (qtm_init wbits) in
-  let '(r1, i') := ideal EofPad2 p (fresh_ideal inp) in
-  let '((r2, _), h') := exec (fresh_host inp) (buffered bufsize EofPad2 p fresh_buf) in
+  let '(r1, i') := ideal EofPad2 hint p (fresh_ideal inp) in
+  let '((r2, _), h') := exec hint (fresh_host inp) (buffered bufsize EofPad2 p fresh_buf) in
   r1 = r2 /\ iout i' = out h'.
 Proof. intros. apply decoder_bufsize_independent. assumption. Qed.
 Print Assumptions C01_qtm_bufsize_independent.
